@@ -211,7 +211,7 @@ Proof. apply close_transport_none. Qed.
 
 Lemma error_received_tv x s : tv x s (fst (error_received s)).
 Proof.
-  unfold error_received. destruct (s_fut s) as [f|]; cbn [fst]; [|apply close_transport_tv].
+  unfold error_received. destruct (s_fut s) as [f|]; cbn [fst]; [|apply tv_refl].
   destruct (pending s f).
   - apply tv_trans with (b := complete s f (FExc XOSError)). apply complete_tv. apply close_transport_tv.
   - apply close_transport_tv.
